@@ -63,6 +63,11 @@ Definition starts_with_text (ls : list line) : bool :=
   | [] => false
   end.
 
+(* `full_screen_padding`: an empty frame whose padding (shift > 0) is at least as tall as the
+   terminal *)
+Definition full_pad (ls : list line) (shift0 H : N) : bool :=
+  match ls with [] => (0 <? shift0) && (H <=? shift0) | _ => false end.
+
 (* [below]: DrawState::cursor_below (fix 'println/clear after an empty frame'): the previous draw
    erased rows and drew nothing, the cursor is on the blank row below the remaining output.
    When shift = 0 (always under Top alignment) this is the plain [paint] loop. *)
@@ -78,12 +83,15 @@ Definition draw_to_term (ls : list line) (n : N) (al : alignment) (below : bool)
     else
       let padded0 := negb (starts_with_text ls) in
       let '(po, re, pf) := paint_pad ls 0 (N.of_nat (length ls)) W H 0 shift0 padded0 in
-      ((if padded0 then repeat (TLine []) (N.to_nat shift0) else []) ++ po, re,
+      (* fix 'an empty frame as tall as the terminal does not scroll the screen': one padding line
+         less for an empty line list whose padding is at least as tall as the terminal *)
+      ((if padded0 then repeat (TLine []) (N.to_nat (shift0 - (if full_pad ls shift0 H then 1 else 0))) else [])
+         ++ po, re,
        if pf then shift0 else 0) in
   (* after fix 'an empty frame with bottom alignment leaves the cursor below the padded region':
      only a draw WITH lines leaves the cursor on the last row of the region *)
   let below' := if negb (match ls with [] => true | _ => false end) then false
-                else if negb (n =? 0) then true else below in
+                else if negb (n =? 0) then negb (full_pad ls shift0 H) else below in
   ((if below && (0 <? n) then [TUp 1] else [])
      ++ clear_ops n ++ pops ++ [TFlush],
    real + shift, below').
